@@ -2,7 +2,7 @@
 //! watch and kill): `child-optimize` for C10 and `child-run` for the bounded runs of C02.
 
 use hyeong::core::state::{State, UnOptState};
-use hyeong::core::{execute, optimize, parse};
+use hyeong::core::{compile, execute, optimize, parse};
 use hyeong::util::ext;
 use std::io::Write;
 
@@ -110,4 +110,36 @@ pub fn child_run(file: &str, level: &str, steps: &str) -> ! {
     }
     let _ = out.flush();
     unsafe { libc::_exit(EXIT_NORMAL) }
+}
+
+/// emit the Rust source for FILE at LEVEL exactly as src/app/build.rs does; prints "<commands> <residual> <pending-heart-target>"
+pub fn child_emit(file: &str, level: &str, out_path: &str) -> ! {
+    let level: u8 = level.parse().unwrap_or(255);
+    let text = match std::fs::read_to_string(file) {
+        Ok(t) => t,
+        Err(_) => std::process::exit(EXIT_USAGE),
+    };
+    let un_opt_code = parse::parse(text);
+    let n = un_opt_code.len();
+    let (src, residual, pending) = if level >= 1 {
+        match optimize::optimize(un_opt_code, level) {
+            Ok((state, code)) => {
+                let pending = state.get_latest_loc().is_some();
+                let r = code.len();
+                (compile::build_source(state, &code, level), r, pending)
+            }
+            Err(e) => {
+                eprintln!("[error] {}", e);
+                unsafe { libc::_exit(EXIT_ERROR) }
+            }
+        }
+    } else {
+        (compile::build_source(UnOptState::new(), &un_opt_code, level), n, false)
+    };
+    if std::fs::write(out_path, src).is_err() {
+        unsafe { libc::_exit(EXIT_USAGE) }
+    }
+    print!("{} {} {}", n, residual, pending as u8);
+    let _ = std::io::stdout().flush();
+    unsafe { libc::_exit(0) }
 }
